@@ -423,8 +423,32 @@ fn run_list_history(args: &[Sexp]) -> Option<Sexp> {
     }
     let mut ctx = ExecutionContext::<()>::new(&info.scheme);
     let mut out = Vec::new();
-    for op in ops {
-        out.push(step(&info, &mut ctx, op)?);
+    // Some stretches of the history (up to three consecutive operations that do not replace the context) are
+    // performed through a borrow guard (`borrow_with`), which is dropped at the end of the stretch: values and
+    // matcher state written through the guard must be the original context's afterwards.  The model has no
+    // notion of guards - they are transparent.
+    let eligible = |op: &Sexp| {
+        matches!(
+            op.as_list().and_then(|l| l.first()).and_then(|h| h.as_sym()),
+            Some("add" | "del" | "setv" | "clear" | "dump" | "probe" | "exec")
+        )
+    };
+    let mut i = 0;
+    while i < ops.len() {
+        let line = ops[i].to_line();
+        let pick = line.bytes().fold(i as u64 + 7, |h, b| (h ^ b as u64).wrapping_mul(0x100000001b3)) >> 9;
+        if eligible(&ops[i]) && pick % 3 == 0 {
+            let mut guard = ctx.borrow_with(());
+            let mut n = 0;
+            while i < ops.len() && n < 1 + (pick / 3) % 3 && eligible(&ops[i]) {
+                out.push(step(&info, &mut guard, &ops[i])?);
+                i += 1;
+                n += 1;
+            }
+        } else {
+            out.push(step(&info, &mut ctx, &ops[i])?);
+            i += 1;
+        }
     }
     Some(Sexp::tagged("obs", out))
 }
